@@ -318,7 +318,8 @@ def snap_diff(a: dict, b: dict) -> list[str]:
     out = []
     for k in ("dbs", "schemas", "tables", "views"):
         if a[k] != b[k]:
-            sa, sb = set(map(tuple, a[k])), set(map(tuple, b[k]))
+            sa = {x if isinstance(x, str) else tuple(x) for x in a[k]}
+            sb = {x if isinstance(x, str) else tuple(x) for x in b[k]}
             out.append(f"{k}: -{sorted(sa - sb)} +{sorted(sb - sa)}")
     for k in sorted(set(a["cols"]) | set(b["cols"])):
         if a["cols"].get(k) != b["cols"].get(k) and k in a["cols"] and k in b["cols"]:
